@@ -99,9 +99,6 @@ Theorem C09_eval_total :
            Laws K -> forall (s : spline F) (x : F), SplInv s -> exists v : F, spl_eval s x = Ok v.
 Proof. exact (@Proofs_Eval.seval_total). Qed.
 
-Theorem C09_sites_covered :
-    forallb site_covered Sites.unchecked_sites = true.
-Proof. exact (@Proofs_Sites.sites_covered). Qed.
 
 
 Print Assumptions C09_no_ub.
@@ -113,4 +110,3 @@ Print Assumptions C09_interval_index.
 Print Assumptions C09_relative_index.
 Print Assumptions C09_absolute_index.
 Print Assumptions C09_eval_total.
-Print Assumptions C09_sites_covered.
